@@ -56,6 +56,13 @@ def run_one(spec, prefix, limits=Limits):
     it = Interp(p)
     a, n, syms = make_input(p, spec)
     kind, info = 'ok', ''
+    import signal
+    def _alarm(sig, frm):
+        raise PathEnd('unsupported', 'path wall-clock limit (%ds) exceeded' % spec.get('path_seconds', 300))
+    try:
+        signal.signal(signal.SIGALRM, _alarm); signal.alarm(int(spec.get('path_seconds', 300)))
+    except (ValueError, OSError):
+        pass
     try:
         r = it.call('@' + spec['fn'], [a, n] + list(spec.get('extra_args', [])))
         info = r if isinstance(r, int) else 'sym'
@@ -64,6 +71,9 @@ def run_one(spec, prefix, limits=Limits):
         kind, info = e.kind, e.info
     except RecursionError:
         kind, info = 'budget', 'python recursion limit (call depth)'
+    finally:
+        try: signal.alarm(0)
+        except (ValueError, OSError): pass
     model_input = None
     if kind in ('fail', 'panic', 'oob', 'budget', 'alloc') or spec.get('want_models'):
         try:
